@@ -24,7 +24,7 @@ class DelayedQueue(Generic[T]):
     def put(self, element: T, *, delay: bool = False) -> None:
         """Add element to queue."""
         self._lock.acquire()
-        self._queue.append((element, time.time(), delay))
+        self._queue.append((element, time.monotonic(), delay))
         self._not_empty.notify()
         self._lock.release()
 
@@ -54,10 +54,10 @@ class DelayedQueue(Generic[T]):
 
             # wait for delay if required
             if delay:
-                time_left = insert_time + self.delay_sec - time.time()
+                time_left = insert_time + self.delay_sec - time.monotonic()
                 while time_left > 0:
                     time.sleep(time_left)
-                    time_left = insert_time + self.delay_sec - time.time()
+                    time_left = insert_time + self.delay_sec - time.monotonic()
 
             # return element if it's still in the queue
             with self._lock:
